@@ -30,7 +30,7 @@ def model_check(ctx):
 
 
 def cases(ctx):
-    return codec.gen_cases(ctx, "xml")
+    return codec.gen_cases(ctx, "xml", full_files_only=True)
 
 
 def execute(case):
